@@ -40,6 +40,34 @@ CN = [Aff.sym('cnx'), Aff.sym('cny'), Aff.sym('cnz')]
 def restrict_rows(ctx):
     mod = ctx.repo.mod(CORE)
     fn = mod.func('restrict')
+    # index clamps pair an index with the size of ITS OWN axis
+    # (`izp = min(nz - 1, iz + 1)`): with the size of another axis the upper
+    # neighbour collapses to a wrong plane on grids with more cells along
+    # that axis (decided on the names' axis letters; other names: no verdict)
+    n_cl = 0
+    for c_ in ast.walk(fn):
+        if not (isinstance(c_, ast.Call) and ast.unparse(c_.func) in (
+                'min', 'max') and len(c_.args) == 2):
+            continue
+        names_ = [x.id for a_ in c_.args for x in ast.walk(a_)
+                  if isinstance(x, ast.Name)]
+        dims_ = [n_ for n_ in names_ if len(n_) >= 2 and n_[0] in 'nc' and
+                 n_[-1] in 'xyz' and n_[:-1].rstrip('xyz') in ('n', 'cn')]
+        idx_ = [n_ for n_ in names_ if n_.startswith(('i', 'ci')) and
+                n_[-1] in 'xyz']
+        if len(dims_) == 1 and len(idx_) == 1:
+            n_cl += 1
+            ctx.check('C04.R.row', f'restrict clamp `{ast.unparse(c_)}`',
+                      dims_[0][-1] == idx_[0][-1],
+                      f'the index `{idx_[0]}` is clamped with the size '
+                      f'`{dims_[0]}` of another axis: on grids where the two '
+                      'axes have different numbers of cells the neighbour '
+                      'plane is wrong and the restriction is not the '
+                      'transpose of the prolongation',
+                      ctx.where(mod, c_), nontrivial=False)
+    if any(not ok_ for r_, c2_, ok_, _n in ctx.instances
+           if r_ == 'C04.R.row' and c2_.startswith('restrict clamp')):
+        return
     pn = au.params(fn)
     ctx.anchor(len(pn) == 10, 'restrict(crx, cry, crz, rx, ry, rz, wx, wy, wz, '
                'sc_dir)')
